@@ -18,16 +18,6 @@ def getObserved (a : Json) : Except String Observed := do
     | some v => (← getArr v).mapM getRatList
   return { obs := fun k => os.getD k default, inter := fun i j => (it.getD i []).getD j 0 }
 
-def prepKind (p : Prep Unit) : String :=
-  match p with
-  | .interval .. => "interval"
-  | .box .. => "box"
-  | .shape tag _ => tag
-
-def unitGeos : Geos Unit :=
-  { ofGeom := fun _ => (), buffered := fun _ _ _ => (), area := fun _ => 0, inter := fun _ _ => 0,
-    st := fun _ => 0, en := fun _ => 0 }
-
 /-- which values of shapely a side needs: "interval" | "box" (closed forms), "plain"
     (`geometry_to_shapely g`), "buffered" (`geometry_to_shapely (buffer_geometry g tb fb)`) -/
 def sidePlan (g : Geom) (tb fb : Rat) : Json :=
